@@ -111,3 +111,43 @@ func isSchemaMessage(t types.Type) bool {
 	}
 	return false
 }
+
+// enumNameTableRule: the generated `<Enum>_name` tables map only the declared numbers; a lookup
+// yields "" for every other number, so an encoding built from it cannot tell unknown numbers apart
+// (Enum.String() falls back to the number itself and stays injective).
+func enumNameTableRule(c *Ctx, ds []*declInfo) {
+	const R = "enum-encoded-injectively"
+	c.rule(R, "an equality encoder never renders an enum through the generated <Enum>_name map (missing numbers all read as the empty string); it uses String() or the number")
+	for _, d := range ds {
+		n := 0
+		ast.Inspect(d.fd.Body, func(m ast.Node) bool {
+			ix, ok := m.(*ast.IndexExpr)
+			if !ok {
+				return true
+			}
+			var obj types.Object
+			switch x := ix.X.(type) {
+			case *ast.Ident:
+				obj = d.pkg.TypesInfo.Uses[x]
+			case *ast.SelectorExpr:
+				obj = d.pkg.TypesInfo.Uses[x.Sel]
+			}
+			pv, isVar := obj.(*types.Var)
+			if !isVar || pv.Pkg() == nil || pv.Parent() != pv.Pkg().Scope() || !strings.HasSuffix(pv.Name(), "_name") {
+				return true
+			}
+			// comma-ok lookups can tell a miss from a hit
+			for _, y := range enclosing(d.fd.Body, ix) {
+				if as, isAs := y.(*ast.AssignStmt); isAs && len(as.Lhs) == 2 && len(as.Rhs) == 1 && as.Rhs[0] == ast.Expr(ix) {
+					return true
+				}
+			}
+			n++
+			c.bad(R, d.name+"#"+pv.Name(), c.P.Pos(ix.Pos()), fmt.Sprintf("%s renders an enum through %s: every number without a generated name becomes the empty string, so values differing only in such numbers get the same encoding (and the same checksum)", d.name, pv.Name()))
+			return true
+		})
+		if n == 0 {
+			c.okTrivial(R, d.name, c.P.Pos(d.fd.Pos()), "no enum name-table lookup")
+		}
+	}
+}
